@@ -2,10 +2,11 @@
 
 The method is called on real solvers (grammars with numeric nonterminals: plain, zero padded, fixed width,
 signed, mandatory '+', non-regular, non-numeric) with a real Z3 model that binds the int variable to z.
-`solver.parse` is wrapped by a recorder, so the string handed to the SECOND parse (built from Z3's answer for
-maybe_plus / padding) is observed; from it the oracle answer (plus, k) of the model is derived and the model is
-asked to reproduce the outcome:
-  * Coq checks  cand z plus k = recorded candidate  (the candidate has the supported shape),
+z3.Solver.check / .model are wrapped by a spy, so Z3's answer to the query (not sat | values of __plus and
+__padding) is observed and becomes the oracle answer (plus, k) of the model; `solver.parse` is wrapped by a
+recorder, so the string handed to the SECOND parse is observed as well.  The model is asked to reproduce the outcome:
+  * Z3's values satisfy the two shape constraints ("+"?, "0"*) and Coq checks  cand z plus k = recorded candidate
+    (the code builds its candidate from Z3's answer exactly as the model does),
   * functional equality of the outcome (tree up to node ids / exception kind) with `int_value`,
   * independently, acceptance of every returned tree by `meets_int` (wf_treeb, closed, label, integer value = z),
   * the boolean guard `int_guard` of the theorems is evaluated (cases outside are compared but counted apart).
@@ -92,6 +93,8 @@ def rand_numeric_grammar(rng, n_vars):
 
 
 INTS = [0, 1, 5, 9, 10, 12, 99, 100, 123, 1234, 10 ** 20 + 7, -1, -5, -12, -100, -(10 ** 19)]
+# quick tier: shorter big values (the Earley model's cost grows with the square of the length)
+INTS_QUICK = [0, 1, 5, 9, 10, 12, 99, 100, 123, 1234, 10 ** 9 + 7, -1, -5, -12, -100, -(10 ** 8)]
 
 
 class Recorder:
@@ -120,15 +123,57 @@ def z3_model_for(name, n):
     return v, s.model()
 
 
+class Z3Spy:
+    """records the result of the last z3.Solver.check() and the last model handed out while active
+    (the query of extract_model_value_int_var is the LAST check of the call; the checks made inside
+    extract_regular_expression happen while the query is still being built)"""
+
+    def __enter__(self):
+        self.last_check, self.last_model = None, None
+        self._check, self._model = z3.Solver.check, z3.Solver.model
+        spy = self
+
+        def check(slf, *a):
+            spy.last_check = spy._check(slf, *a)
+            return spy.last_check
+
+        def model(slf):
+            spy.last_model = spy._model(slf)
+            return spy.last_model
+        z3.Solver.check, z3.Solver.model = check, model
+        return self
+
+    def __exit__(self, *exc):
+        z3.Solver.check, z3.Solver.model = self._check, self._model
+        return False
+
+    def answer(self):
+        """('sat', plus_string, padding_string) | ('notsat',) | ('noquery',)"""
+        if self.last_check is None:
+            return ("noquery",)
+        if self.last_check != z3.sat:
+            return ("notsat", "unknown" if self.last_check == z3.unknown else "unsat")
+        if self.last_model is None:
+            return ("unreadable", "sat, but the model was never read")
+        m = self.last_model
+        try:
+            return ("sat", m[z3.String("__plus")].as_string(), m[z3.String("__padding")].as_string())
+        except Exception as e:
+            return ("unreadable", repr(e)[:80])
+
+
 def impl_int_value(solver, rec, nt, n):
+    """-> (outcome, recorded parse calls, Z3 answer of the query)"""
     var = language.Variable("i", nt)
     v, model = z3_model_for("i_0", n)
     del rec.calls[:]
-    try:
-        t = solver.extract_model_value_int_var(None, var, model, {var: v}, set(), {var})
-        return ("ok", t), list(rec.calls)
-    except Exception as e:           # the outcome is the observable
-        return ("raise", lib.exn_name(e), str(e)[:80]), list(rec.calls)
+    with Z3Spy() as spy:
+        try:
+            t = solver.extract_model_value_int_var(None, var, model, {var: v}, set(), {var})
+            out = ("ok", t)
+        except Exception as e:           # the outcome is the observable
+            out = ("raise", lib.exn_name(e), str(e)[:80])
+    return out, list(rec.calls), spy.answer()
 
 
 NUM_RE = re.compile(r"^[+-]?[0-9]+$")
@@ -138,22 +183,25 @@ def ref_intval(s):
     return int(s) if NUM_RE.match(s) else None
 
 
-def derive_oracle(n, calls):
-    """oracle answer explaining the recorded calls: ('none'|'unused'|'some', plus, k, candidate) or ('bad', why)"""
-    if len(calls) == 1:
-        return ("none", False, 0, None) if calls[0][2] == "SyntaxError" else ("unused", False, 0, None)
+def derive_oracle(n, calls, ans):
+    """oracle answer of the model = what Z3 really answered (observed by Z3Spy), cross-checked against the recorded
+    parse calls: ('none'|'unused'|'some', plus, k, candidate handed to the second parse or None) or ('bad', why)"""
+    if not calls:
+        return ("bad", "no parse call")
+    if calls[0][2] != "SyntaxError":                 # first parse returned (or raised something else): no query
+        if len(calls) != 1 or ans[0] != "noquery":
+            return ("bad", f"query/second parse after a first parse that did not raise SyntaxError: {calls} {ans}")
+        return ("unused", False, 0, None)
+    if ans[0] == "notsat":
+        return ("none", False, 0, None) if len(calls) == 1 else ("bad", f"parse after a not-sat query: {calls}")
+    if ans[0] != "sat":
+        return ("bad", f"Z3 answer {ans}")
+    plus, pad = ans[1], ans[2]
+    if plus not in ("", "+") or set(pad) - {"0"}:
+        return ("bad", f"Z3 model values outside the two shape constraints: {ans}")
     if len(calls) != 2:
-        return ("bad", f"{len(calls)} parse calls")
-    cnd = calls[1][0]
-    body = str(abs(n))
-    sign = "-" if n < 0 else ("+" if cnd.startswith("+") else "")
-    rest = cnd[len(sign):] if cnd.startswith(sign) else None
-    if rest is None or not rest.endswith(body):
-        return ("bad", f"candidate {cnd!r} not of the supported shape")
-    pad = rest[:len(rest) - len(body)]
-    if set(pad) - {"0"}:
-        return ("bad", f"candidate {cnd!r} not of the supported shape")
-    return ("some", sign == "+", len(pad), cnd)
+        return ("bad", f"{len(calls)} parse calls after a sat query")
+    return ("some", plus == "+", len(pad), calls[1][0])
 
 
 class IntPacker:
@@ -205,8 +253,9 @@ def build(run, thorough, disagreements, c14):
     grammars = list(FIXED)
     for _ in range(8 if thorough else 2):
         grammars.append(rand_numeric_grammar(rng, 8 if thorough else 6))
-    pk = IntPacker(130)
-    hist = {"ok_first_parse": 0, "ok_after_query": 0, "RuntimeErr": 0, "SyntaxErr": 0, "other_raise": 0}
+    pk = IntPacker(100)
+    hist = {"ok_first_parse": 0, "ok_after_query": 0, "RuntimeErr": 0, "SyntaxErr": 0, "other_raise": 0,
+            "query_unsat": 0, "query_unknown_timeout": 0}
     n_tree = 0
     repres = 0
     per_nt = len(INTS) if thorough else 9
@@ -224,18 +273,20 @@ def build(run, thorough, disagreements, c14):
             nts = FIXED_NTS[gi] or [nt for nt in g if nt != "<start>"]
         guard_done = set()
         for nt in nts:
-            ints = INTS if thorough else (INTS[:3] + rng.sample(INTS[3:], per_nt - 3))
+            ints = INTS if thorough else (INTS_QUICK[:3] + rng.sample(INTS_QUICK[3:], per_nt - 3))
             if gi < len(FIXED) and FIXED_INTS[gi]:
                 ints = FIXED_INTS[gi]
             for n in ints:
-                out, calls = impl_int_value(solver, rec, nt, n)
-                orc = derive_oracle(n, calls)
+                out, calls, ans = impl_int_value(solver, rec, nt, n)
+                orc = derive_oracle(n, calls, ans)
                 if out[0] == "ok":
                     hist["ok_first_parse" if len(calls) == 1 else "ok_after_query"] += 1
                 elif out[1] in ("RuntimeErr", "SyntaxErr"):
                     hist[out[1]] += 1
                 else:
                     hist["other_raise"] += 1
+                if ans[0] == "notsat":
+                    hist["query_unknown_timeout" if ans[1] == "unknown" else "query_unsat"] += 1
                 nontrivial = len(calls) == 2 or (out[0] == "raise")
                 run.count(("int", gi, nt, n), nontrivial)
                 meta = {"grammar": g, "nonterminal": nt, "z": n, "calls": calls,
@@ -244,6 +295,11 @@ def build(run, thorough, disagreements, c14):
                     t = out[1] if out[0] == "ok" else None
                     disagreements.append(dict(meta, what="extract_model_value_int_var (candidate shape)", why=orc[1],
                                               spec_fail=t is not None and not ref_meets_int(c14, cg, nt, n, t)))
+                    if t is not None:     # the verified acceptance test still sees the tree
+                        n_tree += 1
+                        wdef = f"Definition WI{n_tree} : tree := {c14.g_tree(t)}."
+                        pk.add([gdef, wdef], f"(1, GI{gi}, {g_str(nt)}, {g_Z(n)}, (@None (bool * nat)), (@None str), "
+                                             f"(Ok WI{n_tree}))", dict(meta, mode="acc", tree=t))
                     continue
                 olit = f"(Some ({g_bool(orc[1])}, {g_nat(orc[2])}))" if orc[0] == "some" else "(@None (bool * nat))"
                 clit = f"(Some {g_str(orc[3])})" if orc[0] == "some" else "(@None str)"
@@ -273,7 +329,8 @@ def build(run, thorough, disagreements, c14):
                                 rec.orig(sign + "0" * k + body, nt, silent=True)
                                 repres += 1
                                 run.cov.setdefault("int_runtime_but_representable", []).append(
-                                    {"nonterminal": nt, "expansion": g[nt], "z": n, "accepted": sign + "0" * k + body})
+                                    {"nonterminal": nt, "expansion": g[nt], "z": n, "accepted": sign + "0" * k + body,
+                                     "z3_query": ans[1] if len(ans) > 1 else ans[0]})
                                 break
                             except SyntaxError:
                                 pass
@@ -316,7 +373,7 @@ def replay_int(c14, w):
     g = w["grammar"]
     solver = ISLaSolver(g)
     rec = Recorder(solver)
-    out, calls = impl_int_value(solver, rec, w["nonterminal"], w["z"])
+    out, calls, _ = impl_int_value(solver, rec, w["nonterminal"], w["z"])
     if out[0] != "ok":
         print("impl: raised", out[1], "parse calls:", calls)
         return 0
